@@ -199,8 +199,9 @@ theorem c14_optimiseAll_total (key : Nat → Nat) (c : Cell) (f : Nat) (hac : Ac
 
 /-! ### the hypotheses are satisfiable: a non-trivial cell
 
-`top` (10) has duplicate members and includes, three distinct includes, one of them nested two deep (11 → 13), an
-include of the undefined `"all"`-free groups; members 0, 1, 3 are supplied by includes, 2 is not. -/
+Group 10 has duplicate members and includes and three distinct includes, one of them nested two deep (11 → 13);
+group 14 includes the undefined `"all"` (id 0 = every segment), so through 14 group 10 is supplied with every
+segment and keeps no member of its own. -/
 
 def exCell : Cell :=
   ⟨[0, 1, 2, 3, 4],
@@ -212,6 +213,10 @@ def exRank : Nat → Nat := fun g => if g = 10 then 3 else if g = 14 then 2 else
 example : Acyclic exCell := ⟨exRank, ranked_of_check exCell exRank (by decide)⟩
 example : NoDangling exCell := noDangling_of_check exCell (by decide)
 example : emptyId ∉ exCell.groups.map (·.id) := by decide
+example : (exCell.groups.map (·.id)).Nodup := by decide
+example : (10 : Nat) ≠ emptyId ∧ 10 ∈ exCell.groups.map (·.id) ∧ exCell.groups.length < 6 := by decide
+example : (lookup exCell 0).isSome ∧ lookup exCell 99 = none := by decide
+example : 2 ∈ optMembersOld [0, 2] [[0]] := by decide
 example : resolve exCell 6 10 = .ok [3, 0, 1, 2, 4] := by decide
 example : optimiseAll (fun x => x) exCell 6 =
     .ok ⟨[0, 1, 2, 3, 4], [⟨10, [], [11, 12, 14]⟩, ⟨11, [0], [13]⟩, ⟨12, [1], []⟩, ⟨13, [3], []⟩, ⟨14, [], [0]⟩]⟩ := by
